@@ -125,6 +125,9 @@ def handle (op : String) (inp out : List String) : Option String :=
   | "C03.seg32" => some (if out == ["notf32"] then skip "not-f32" else handleSeg inp out)
   | "C03.ring32" => some (if out == ["notf32"] then skip "not-f32" else handleRing inp out)
   | "C03.tri32" => some (if out == ["notf32"] then skip "not-f32" else handleTri inp out)
+  | "C03.segi64" | "C03.segi32" => some (if out == ["notint"] then skip "not-integer" else handleSeg inp out)
+  | "C03.ringi64" | "C03.ringi32" => some (if out == ["notint"] then skip "not-integer" else handleRing inp out)
+  | "C03.trii64" | "C03.trii32" => some (if out == ["notint"] then skip "not-integer" else handleTri inp out)
   | "C03.orient" => some (handleOrient inp out)
   | "C03.orienti" => some (handleOrientI inp out)
   | "C03.seg" => some (handleSeg inp out)
